@@ -644,6 +644,55 @@ func (c *Ctx) pinModule(m string, sitePkgs []string) ([]pinDef, []string) {
 		}
 		recs[pinRec{e[0], e[1]}] = true
 	}
+	// close under the same-package callees that resolve without type information: `f(…)` / `f[T](…)`
+	// with f a package-level function of the package, and `r.m(…)` with r the receiver
+	var work []pinRec
+	for r := range recs {
+		work = append(work, r)
+	}
+	for len(work) > 0 {
+		r := work[len(work)-1]
+		work = work[:len(work)-1]
+		fd, err := c.FindFunc(r.pkg, r.name)
+		if err != nil {
+			continue
+		}
+		var recvObj *ast.Object
+		if fd.Recv != nil && len(fd.Recv.List) > 0 && len(fd.Recv.List[0].Names) > 0 {
+			recvObj = fd.Recv.List[0].Names[0].Obj
+		}
+		ast.Inspect(fd.Body, func(n ast.Node) bool {
+			call, ok := n.(*ast.CallExpr)
+			if !ok {
+				return true
+			}
+			fun := call.Fun
+			switch x := fun.(type) {
+			case *ast.IndexExpr:
+				fun = x.X
+			case *ast.IndexListExpr:
+				fun = x.X
+			}
+			cand := ""
+			switch f := fun.(type) {
+			case *ast.Ident:
+				if f.Obj == nil || f.Obj.Kind == ast.Fun {
+					cand = f.Name
+				}
+			case *ast.SelectorExpr:
+				if id, ok := f.X.(*ast.Ident); ok && recvObj != nil && id.Obj == recvObj {
+					cand = recvName(fd) + "." + f.Sel.Name
+				}
+			}
+			if cand != "" && !recs[pinRec{r.pkg, cand}] {
+				if _, err := c.FindFunc(r.pkg, cand); err == nil {
+					recs[pinRec{r.pkg, cand}] = true
+					work = append(work, pinRec{r.pkg, cand})
+				}
+			}
+			return true
+		})
+	}
 	var list []pinRec
 	pkgs := map[string]bool{}
 	for r := range recs {
